@@ -132,5 +132,41 @@ add(DC + "reader::stdin::read_char_from_bytes|index|index on &[u8; 4] with adt:c
     "utf8_len is one of the constants 1..=4 returned by Utf8Position::len")
 add(DC + "reader::stdin::read_char_from_bytes|bounds|index i < len 4", "reviewed", "i ranges over 1..utf8_len with utf8_len <= 4")
 
+# ---------------------------------------------------------------- line editor (C20)
+TT = "debugger::command::reader::terminal::"
+TADT = "lace::debugger::command::reader::terminal::"
+INV = "0 <= cursor <= chars().count() of the edited line: established by C20.R1 (only character-dimension values reach the cursor) and C20.R2 (guarded steps)"
+ISNEXT = r"reader::terminal::Terminal::is_next$"
+add(TT + "Terminal::get_current|unwrap|expect(get(&*deref(&*self.history.list), *self.history.index))", "dominated-by-call",
+    "taken only when is_next() is false, i.e. history.index < history.list.len()", callee=ISNEXT, outcome="false")
+add(TT + "Terminal::update_next|unwrap|expect(get(&*deref(&*self.history.list), *self.history.index))", "dominated-by-call",
+    "taken only when is_next() is false, i.e. history.index < history.list.len()", callee=ISNEXT, outcome="false")
+add(TT + "Terminal::is_next|panic:debug_assert|debug_assert!(index went past history)", "field-writers",
+    "history.index is len at construction/after a line, and only moves by -1 under index > 0 or +1 under index < len (both guards discharged in the same ledger)",
+    adt=TADT + "TerminalHistory", field="index",
+    writers=[TT + "Terminal::handle_key", TT + "Terminal::update_next", TT + "Terminal::read_line", TT + "TerminalHistory::new"])
+FWT = dict(adt=TADT + "Terminal", field="cursor", writers=[TT + "Terminal::new", TT + "Terminal::get_next_command"])
+add(TT + "Terminal::get_next_command|index|index on &String with adt:core::ops::range::RangeFrom:RangeFrom{*self.cursor}", "field-writers",
+    "the splitter's byte cursor is 0 or the offset just behind a ';' found in the buffer (one-byte ASCII): a char boundary <= len", **FWT)
+add(TT + "Terminal::get_next_command|overflow:Add|Add(index, 1)", "reviewed", "index is a byte offset inside the buffer")
+add(TT + "Terminal::get_next_command|overflow:Add|Add(*self.cursor, (index + 1))", "reviewed", "both are byte offsets inside the buffer")
+add(TT + "Terminal::get_next_command|index|index on &str with adt:core::ops::range::RangeTo:RangeTo{index}", "dominated-by-call",
+    "index was returned by find(';') on this very slice: a char boundary inside it", callee=r"core::str::<impl str>::find$", outcome="Some")
+for k in ("Add(*self.visible_cursor, 1)", "Add(*self.visible_cursor, 1)#2", "Add(*self.history.index, 1)"):
+    add(TT + "Terminal::handle_key|overflow:Add|" + k, "assumption", "A1: counters bounded by the length of an in-memory line / history list do not overflow usize")
+add(TT + "count_chars_bytes|overflow:Add|Add(char_count, 1)", "assumption", "A1: counters bounded by the length of an in-memory line / history list do not overflow usize")
+add(TT + "find_word_back|overflow:Add|Add(cursor, 1)", "assumption", "A1: counters bounded by the length of an in-memory line / history list do not overflow usize")
+for k in ("", "#2", "#3", "#4"):
+    add(TT + "find_word_back|unwrap|unwrap(nth(&chars(&*string), cursor))" + k, "conditional",
+        "cursor was decremented from a value <= count, so it indexes an existing character. " + INV, on="C20.R1,C20.R2")
+add(TT + "insert_char_index|panic:assert|assert!(out-of-bounds char index)", "conditional", INV, on="C20.R1,C20.R2")
+add(TT + "remove_char_index|panic:assert|assert!(out-of-bounds char index)", "conditional",
+    "every call is dominated by cursor < count on the buffer being edited (C20.R2 removal guard)", on="C20.R2")
+add(TT + "insert_char_index|index|insert on &mut String with byte_index, ch", "reviewed",
+    "byte_index comes from count_chars_bytes: the char_indices offset of the char_index-th character, or string.len(): a char boundary <= len")
+add(TT + "remove_char_index|index|remove on &mut String with byte_index", "dominated-by-call",
+    "the assertion just before guarantees char_index < char_count, so byte_index is the offset of an existing character",
+    callee=r"reader::terminal::count_chars_bytes$", outcome="any")
+
 json.dump({"entries": E}, open(os.path.join(os.path.dirname(os.path.dirname(os.path.abspath(__file__))), "tables", "ledger.json"), "w"), indent=1)
 print(len(E), "ledger entries")
